@@ -133,6 +133,12 @@ def compile_view(parsed):
     """(input, rule base, out) triples"""
     return sorted((b["inputs"][0], base_name(b["rule"]), tuple(b["outs"])) for b in compile_stmts(parsed))
 
+def compile_cmd_view(parsed):
+    """(input, rule base name, the rule's command) of every compile statement: which RULE compiles a source — two rules of one
+    name (declared for different extensions in different contexts) differ in their command"""
+    rules = {r["name"]: r["vars"].get("command") for r in parsed["rules"]}
+    return sorted((b["inputs"][0], base_name(b["rule"]), rules.get(b["rule"])) for b in compile_stmts(parsed))
+
 def orderonly_view(parsed):
     """order-only deps of every statement. Compile statements are keyed by (rule base, source) -- their
     object names embed the hash of the deps -- and carry the sorted list of their deps tuples; other
